@@ -100,7 +100,7 @@ package proxy
 //@   ensures [one] ((endsSlash(a) != startsSlash(b)) || (!endsSlash(a) && b == "")) ==> result == a + b
 //@   ensures [length] len(result) <= len(a) + len(b) + 1 && len(result) >= len(a) + len(b) - 1
 
-//@ unit proxy_conns props=C05 filter=`proxy\.Proxy\)\.ServeHTTP$`
+//@ unit proxy_conns props=C05 filter=`proxy\.Proxy\)\.ServeHTTP$|proxy\.newBufferedBody$`
 //@ func (*ReverseProxy).ServeHTTP
 //@   may_panic
 //@ func createUpstreamRequest
@@ -108,8 +108,23 @@ package proxy
 //@ extern net/url.Parse
 //@   ensures result1 == nil ==> result0 != nil
 
+//@ // "every attempt receives the complete original body": when a retry is possible (several hosts and a try duration) the
+//@ // body handed to the attempts is absent or one of our rewindable buffered bodies
+//@ ghost lastBuffered int
+//@ func newBufferedBody
+//@   ensures [nil_in_nil_out] src == nil ==> (result0 == nil && result1 == nil)
+//@   ensures [buffers_or_fails] (src != nil && result1 == nil) ==> (result0 != nil && result0.Reader != nil)
+//@ extern bytes.NewReader
+//@   ensures result != nil
+//@ extern invoke:(github.com/tmpim/casket/caskethttp/proxy.Upstream).GetHostCount
+//@   pure
+//@ extern invoke:(github.com/tmpim/casket/caskethttp/proxy.Upstream).GetTryDuration
+//@   pure
 //@ func (Proxy).ServeHTTP
 //@   may_panic
+//@   requires r != nil && w != nil && lastBuffered == 0
+//@   at call newBufferedBody do lastBuffered = result0
+//@   at call invoke:(github.com/tmpim/casket/caskethttp/proxy.Upstream).Select#1 assert [retry_needs_rewindable_body] (upstream.GetHostCount() > 1 && upstream.GetTryDuration() != 0) ==> (outreq.Body == nil || (lastBuffered != 0 && outreq.Body == lastBuffered))
 //@   ensures [conns_balance] unchanged("UpstreamHost.Conns")
 //@   ensures_on_panic [conns_balance_p] unchanged("UpstreamHost.Conns")
 //@   loop 1 invariant unchanged("UpstreamHost.Conns")
